@@ -73,6 +73,16 @@ func isAnswers(e error, refs []error) string {
 func runC04(c *core.Ctx) {
 	g := gen.New(c.R)
 	t := caseTree(c, g, 6)
+	// A wrapper that overrides its cause's message may override it with the
+	// EMPTY string (user wrapper whose Error() returns "", fmt.Errorf("%.0w")):
+	// one elidewrap node in three gets an empty own message. (Empty strings in
+	// other positions are outside the domain: messages are regular = non-empty.)
+	gen.Walk(t, func(n *gen.Node, _ bool) {
+		if n.Kind == "elidewrap" && c.R.Intn(3) == 0 {
+			n.S[0] = ""
+			c.Count("elide-wrappers-with-empty-message", 1)
+		}
+	})
 	coverTree(c, t)
 	e, m, ok := safeBuild(c, t)
 	if !ok {
